@@ -49,8 +49,10 @@ type c19Pkg struct {
 	funcs map[string]*ast.FuncDecl // "name" or "Type.name"
 }
 
-func c19LoadPkg() (*c19Pkg, error) {
-	dir := filepath.Join(repoDir(), "stdlib")
+func c19LoadPkg() (*c19Pkg, error) { return c19LoadPkgDir("stdlib") }
+
+func c19LoadPkgDir(name string) (*c19Pkg, error) {
+	dir := filepath.Join(repoDir(), name)
 	ents, err := os.ReadDir(dir)
 	if err != nil {
 		return nil, err
@@ -175,6 +177,11 @@ func c19NamedErrorResult(fd *ast.FuncDecl) string {
 	return ""
 }
 
+// set by c19RecoverBody: the conditions around the guarded assignment of the error result, and the
+// variable holding recover()'s result (for c19NilPanicFact)
+var c19LastGuard []ast.Expr
+var c19LastRecoverVar string
+
 // c19RecoverBody analyses the body of a deferred function. The result it has to assign is
 // the captured variable `capt` (function literal) or `*ptr` (named function, parameter ptr).
 func c19RecoverBody(body *ast.BlockStmt, capt, ptr string) c19Fact {
@@ -241,6 +248,7 @@ func c19RecoverBody(body *ast.BlockStmt, capt, ptr string) c19Fact {
 		return found
 	}
 	guarded, unguarded, shadow, passedOn := false, false, false, false
+	var guardStack []ast.Expr
 	var visit func(n ast.Node, underGuard bool)
 	visit = func(n ast.Node, underGuard bool) {
 		switch st := n.(type) {
@@ -252,7 +260,9 @@ func c19RecoverBody(body *ast.BlockStmt, capt, ptr string) c19Fact {
 			if st.Init != nil {
 				visit(st.Init, underGuard)
 			}
+			guardStack = append(guardStack, st.Cond)
 			visit(st.Body, underGuard || testsRecovered(st.Cond))
+			guardStack = guardStack[:len(guardStack)-1]
 			if st.Else != nil {
 				visit(st.Else, underGuard)
 			}
@@ -262,6 +272,7 @@ func c19RecoverBody(body *ast.BlockStmt, capt, ptr string) c19Fact {
 				if st.Tok == token.ASSIGN && isTarget(l) {
 					if underGuard {
 						guarded = true
+						c19LastGuard, c19LastRecoverVar = append([]ast.Expr(nil), guardStack...), rvar
 					} else {
 						unguarded = true
 					}
@@ -304,6 +315,53 @@ func c19RecoverBody(body *ast.BlockStmt, capt, ptr string) c19Fact {
 	default:
 		return c19No("the deferred function recovers but never assigns the named error result")
 	}
+}
+
+// c19CannotPanic: other defers, and declarations / assignments of literals (flags, counters) only
+func c19CannotPanic(s ast.Stmt) bool {
+	lit := func(e ast.Expr) bool {
+		switch x := e.(type) {
+		case *ast.BasicLit:
+			return true
+		case *ast.Ident:
+			return x.Name == "true" || x.Name == "false" || x.Name == "nil"
+		}
+		return false
+	}
+	switch x := s.(type) {
+	case *ast.DeferStmt:
+		return true
+	case *ast.AssignStmt:
+		for _, r := range x.Rhs {
+			if !lit(r) {
+				return false
+			}
+		}
+		for _, l := range x.Lhs {
+			if _, ok := l.(*ast.Ident); !ok {
+				return false
+			}
+		}
+		return true
+	case *ast.DeclStmt:
+		gd, ok := x.Decl.(*ast.GenDecl)
+		if !ok {
+			return false
+		}
+		for _, sp := range gd.Specs {
+			vs, ok := sp.(*ast.ValueSpec)
+			if !ok {
+				continue
+			}
+			for _, v := range vs.Values {
+				if !lit(v) {
+					return false
+				}
+			}
+		}
+		return true
+	}
+	return false
 }
 
 func c19RecoverFact(p *c19Pkg, fd *ast.FuncDecl) c19Fact {
@@ -359,9 +417,7 @@ func c19RecoverFact(p *c19Pkg, fd *ast.FuncDecl) c19Fact {
 		// everything before the recovering defer runs unprotected: only declarations and other defers may precede it
 		if f.Fact == "yes" {
 			for _, s := range fd.Body.List[:i] {
-				switch s.(type) {
-				case *ast.DeferStmt, *ast.DeclStmt:
-				default:
+				if !c19CannotPanic(s) {
 					f = c19Unknown("statements that may panic precede the recovering defer")
 				}
 			}
@@ -371,6 +427,197 @@ func c19RecoverFact(p *c19Pkg, fd *ast.FuncDecl) c19Fact {
 		}
 	}
 	return best
+}
+
+// ------------------------------------------------------------------ panic(nil)
+
+// c19NilPanicFact: does the deferred function report a panic also when recover() returned nil (panic(nil)
+// in a binary whose main module declares go < 1.21)? yes: the condition guarding the assignment of the error
+// result also tests a completion flag of Run (a local variable of Run that is assigned true / false in Run);
+// no: the condition is `recovered != nil` alone.
+func c19NilPanicFact(p *c19Pkg, fd *ast.FuncDecl) c19Fact {
+	c19LastGuard, c19LastRecoverVar = nil, ""
+	if f := c19RecoverFact(p, fd); f.Fact != "yes" {
+		return c19Unknown("no established recover to ask the question about")
+	}
+	if len(c19LastGuard) == 0 {
+		return c19Unknown("the condition guarding the assignment of the error result was not found")
+	}
+	// boolean flags of Run: local identifiers assigned the literal true or false in Run itself
+	flags := map[string]bool{}
+	for _, st := range fd.Body.List {
+		c19Walk(st, func(n ast.Node) bool {
+			if as, ok := n.(*ast.AssignStmt); ok && len(as.Lhs) == len(as.Rhs) {
+				for i, l := range as.Lhs {
+					if id, ok := l.(*ast.Ident); ok && (c19IsIdent(as.Rhs[i], "true") || c19IsIdent(as.Rhs[i], "false")) {
+						flags[id.Name] = true
+					}
+				}
+			}
+			return true
+		})
+	}
+	cond := c19LastGuard[len(c19LastGuard)-1]
+	onlyRecovered := func(e ast.Expr) bool {
+		be, ok := e.(*ast.BinaryExpr)
+		if !ok || be.Op != token.NEQ {
+			return false
+		}
+		isR := func(x ast.Expr) bool {
+			if c19LastRecoverVar != "" && c19IsIdent(x, c19LastRecoverVar) {
+				return true
+			}
+			ce, ok := x.(*ast.CallExpr)
+			return ok && c19IsIdent(ce.Fun, "recover")
+		}
+		return (isR(be.X) && c19IsIdent(be.Y, "nil")) || (isR(be.Y) && c19IsIdent(be.X, "nil"))
+	}
+	if len(c19LastGuard) == 1 && onlyRecovered(cond) {
+		return c19No("the error result is assigned under `recovered != nil` alone: for panic(nil) with the go < 1.21 semantics recover() returns nil and Run returns (nil, nil)")
+	}
+	mentionsFlag := false
+	for _, c := range c19LastGuard {
+		if be, ok := c.(*ast.BinaryExpr); ok && be.Op == token.LAND {
+			continue // `recovered != nil && …` narrows, it does not widen
+		}
+		ast.Inspect(c, func(n ast.Node) bool {
+			if id, ok := n.(*ast.Ident); ok && flags[id.Name] {
+				mentionsFlag = true
+			}
+			return true
+		})
+	}
+	if be, ok := cond.(*ast.BinaryExpr); ok && be.Op == token.LOR && mentionsFlag {
+		return c19Yes("the deferred function assigns the error result when recover() returned non-nil OR a completion flag of Run says that Run did not finish")
+	}
+	if id, ok := cond.(*ast.Ident); ok && flags[id.Name] {
+		return c19Yes("the deferred function assigns the error result whenever a completion flag of Run says that Run did not finish")
+	}
+	if ue, ok := cond.(*ast.UnaryExpr); ok && ue.Op == token.NOT && mentionsFlag {
+		return c19Yes("the deferred function assigns the error result whenever a completion flag of Run says that Run did not finish")
+	}
+	return c19Unknown("the condition guarding the assignment of the error result is more than `recovered != nil`, but no completion flag of Run is recognised in it")
+}
+
+// ------------------------------------------------------------------ error value after Run (interpreter)
+
+// c19ErrorValueFact: interpreter/rt_identifier.go, executeFunction — the error value a function returned is
+// handled OUTSIDE Run's recover. yes: its Error method is only called inside functions that have a deferred
+// function calling recover() themselves, and a runtime-error pointer obtained from it is compared with nil;
+// no: Error() is called on it in a function without such a defer.
+func c19ErrorValueFact() c19Fact {
+	p, err := c19LoadPkgDir("interpreter")
+	if err != nil {
+		return c19Unknown("package interpreter cannot be read: " + err.Error())
+	}
+	fd := p.funcs["identifierRuntime.executeFunction"]
+	if fd == nil {
+		return c19Unknown("no method identifierRuntime.executeFunction")
+	}
+	protected := func(d *ast.FuncDecl) bool { // a top-level defer of a literal that calls recover() itself
+		for _, st := range d.Body.List {
+			if ds, ok := st.(*ast.DeferStmt); ok {
+				if lit, ok := ds.Call.Fun.(*ast.FuncLit); ok {
+					found := false
+					c19Walk(lit.Body, func(n ast.Node) bool {
+						if ce, ok := n.(*ast.CallExpr); ok && c19IsIdent(ce.Fun, "recover") {
+							found = true
+						}
+						return true
+					})
+					if found {
+						return true
+					}
+				}
+			}
+		}
+		return false
+	}
+	// the variable(s) holding what Run returned
+	errVars := map[string]bool{}
+	c19Walk(fd.Body, func(n ast.Node) bool {
+		if as, ok := n.(*ast.AssignStmt); ok && len(as.Rhs) == 1 && len(as.Lhs) >= 1 {
+			if ce, ok := as.Rhs[0].(*ast.CallExpr); ok {
+				if se, ok := ce.Fun.(*ast.SelectorExpr); ok && se.Sel.Name == "Run" {
+					if id, ok := as.Lhs[len(as.Lhs)-1].(*ast.Ident); ok {
+						errVars[id.Name] = true
+					}
+				}
+			}
+		}
+		return true
+	})
+	if len(errVars) == 0 {
+		return c19Unknown("the call of the function object's Run was not found in executeFunction")
+	}
+	type use struct {
+		unprotected, protectedCalls int
+		nilTest                     bool
+	}
+	var u use
+	var scan func(d *ast.FuncDecl, vars map[string]bool, level int)
+	scan = func(d *ast.FuncDecl, vars map[string]bool, level int) {
+		prot := protected(d)
+		asserted := map[string]bool{} // names bound to vars.(*T)
+		c19Walk(d.Body, func(n ast.Node) bool {
+			switch x := n.(type) {
+			case *ast.AssignStmt:
+				for i, r := range x.Rhs {
+					if ta, ok := r.(*ast.TypeAssertExpr); ok {
+						if id, ok := ta.X.(*ast.Ident); ok && vars[id.Name] && i < len(x.Lhs) {
+							if l, ok := x.Lhs[i].(*ast.Ident); ok && l.Name != "_" {
+								asserted[l.Name] = true
+							}
+						}
+					}
+				}
+			case *ast.BinaryExpr:
+				if x.Op == token.EQL || x.Op == token.NEQ {
+					for _, side := range [][2]ast.Expr{{x.X, x.Y}, {x.Y, x.X}} {
+						if id, ok := side[0].(*ast.Ident); ok && asserted[id.Name] && c19IsIdent(side[1], "nil") {
+							u.nilTest = true
+						}
+					}
+				}
+			case *ast.CallExpr:
+				if se, ok := x.Fun.(*ast.SelectorExpr); ok && se.Sel.Name == "Error" && len(x.Args) == 0 {
+					if id, ok := se.X.(*ast.Ident); ok && vars[id.Name] {
+						if prot {
+							u.protectedCalls++
+						} else {
+							u.unprotected++
+						}
+					}
+				}
+				if level < 2 { // helpers are followed two levels
+					if h := p.resolve(x, d); h != nil {
+						hv := map[string]bool{}
+						hp := c19ParamNames(h.Type)
+						for j, a := range x.Args {
+							if id, ok := a.(*ast.Ident); ok && vars[id.Name] && j < len(hp) {
+								hv[hp[j]] = true
+							}
+						}
+						if len(hv) > 0 {
+							scan(h, hv, level+1)
+						}
+					}
+				}
+			}
+			return true
+		})
+	}
+	scan(fd, errVars, 0)
+	switch {
+	case u.unprotected > 0:
+		return c19No("Error() is called on the error value a function returned, after Run's recover is gone and without a recover of its own: a nil pointer / a panicking Error method takes the interpreter down")
+	case u.protectedCalls > 0 && u.nilTest:
+		return c19Yes("the error text is only obtained inside a function with its own recover, and the runtime-error pointers are compared with nil")
+	case u.protectedCalls > 0:
+		return c19Unknown("the error text is obtained under a recover, but no nil test of the runtime-error pointers was recognised")
+	default:
+		return c19Unknown("no call of Error() on the returned error value found in executeFunction or the helpers it calls")
+	}
 }
 
 // ------------------------------------------------------------------ arity
@@ -829,13 +1076,15 @@ func c19Extract(args []string) int {
 		return 2
 	}
 	run := p.funcs["ECALFunctionAdapter.Run"]
-	var rec, ar c19Fact
+	var rec, ar, np c19Fact
 	if run == nil {
 		rec, ar = c19Unknown("no method ECALFunctionAdapter.Run"), c19Unknown("no method ECALFunctionAdapter.Run")
+		np = rec
 	} else {
-		rec, ar = c19RecoverFact(p, run), c19ArityFact(p, run)
+		rec, ar, np = c19RecoverFact(p, run), c19ArityFact(p, run), c19NilPanicFact(p, run)
 	}
 	pl := c19PluginFact(p)
+	ev := c19ErrorValueFact()
 	var sb strings.Builder
 	sb.WriteString("import Ecal.Model.Bridge\n")
 	sb.WriteString("/-! GENERATED by `harness C19 -tool <file>` from stdlib/*.go — do not edit.\n")
@@ -848,12 +1097,14 @@ func c19Extract(args []string) int {
 	emit("recoverFact", "ECALFunctionAdapter.Run defers a function whose own body calls recover() and assigns Run's named error result when a panic was recovered.", rec)
 	emit("arityFact", "Before the reflective Call the number of arguments is compared with NumIn() and surplus arguments end in a returned error.", ar)
 	emit("pluginFact", "Every function object AddStdlibPluginFunc registers is an ECALFunctionAdapter around a func(...interface{}) (interface{}, error) closure.", pl)
+	emit("nilPanicFact", "The deferred function of Run reports a panic also when recover() returned nil (panic(nil) with the go < 1.21 semantics): it tests a completion flag of Run.", np)
+	emit("errorValueFact", "interpreter/rt_identifier.go, executeFunction: the error value a function returned is only asked for its text under a recover, and runtime-error pointers are compared with nil.", ev)
 	sb.WriteString("\nend Ecal.Gen.C19\n")
 	if err := os.WriteFile(args[0], []byte(sb.String()), 0644); err != nil {
 		fmt.Fprintln(os.Stderr, err)
 		return 2
 	}
-	js, _ := json.Marshal(map[string]c19Fact{"recover": rec, "arity": ar, "plugin": pl})
+	js, _ := json.Marshal(map[string]c19Fact{"recover": rec, "arity": ar, "plugin": pl, "nilpanic": np, "errorvalue": ev})
 	fmt.Println(string(js))
 	return 0
 }
